@@ -199,8 +199,14 @@ def run_selftest(prop: str, repo: str, res: Result) -> None:
             dp = os.path.join(sdir, name, "patch.diff")
             if os.path.exists(meta_path) and os.path.exists(dp):
                 meta = json.load(open(meta_path))
+                if meta.get("kept") and meta.get("property") == prop and meta.get("detected", True) is False:
+                    # confirmed change that no rule reports yet (an open miss, listed in DESIGN.md section 8, round 10): kept in the
+                    # corpus, not claimed as detected, so not a must-fire variant
+                    res.note("self-validation: seeded change %s is a documented miss of this check (not a must-fire variant)" % name)
+                    continue
                 if meta.get("kept") and meta.get("property") == prop:
-                    variants.append(dict(prop=prop, kind="F", name="seeded:" + name, diff=dp, expect=None))
+                    variants.append(dict(prop=prop, kind="F", name="seeded:" + name, diff=dp, expect=None,
+                                         error_ok=meta.get("detected") == "analysis-error"))
                     # ... and the same defect in a tree that was also cleaned up (renames, moves, collaborators): the view must not hide it
                     for rn in ("T1", "T2", "T3", "T4"):
                         bp = os.path.join(VERIF_ROOT, "refactors", "%s_%s" % (prop, rn), "patch.diff")
